@@ -86,7 +86,7 @@ class Check:
         plan["clock"] = [int(datetime.datetime(*c, tzinfo=datetime.timezone.utc).timestamp()) * 10 ** 9, 0]
         case = {"sub": sub, "world": world, "top": top, "plan": plan, "mode": rng.choice(["bfs", "dfs"]), "arcword": rng.choice(["archives", "arc"]), "tz": rng.choice(["UTC", "Europe/Berlin", "Asia/Kolkata"])}
         if sub == "list":
-            case["variant"] = rng.choice(["plain", "plain", "where", "order", "limit"])
+            case["variant"] = rng.choice(["plain", "plain", "where", "order", "limit", "where_limit", "order_limit"])
             case["N"] = rng.randint(1, 12)
         elif sub == "flip":
             case["bitseed"] = rng.getrandbits(30)
@@ -168,9 +168,10 @@ class Check:
         fromc = " from %s %s" % (top, case["mode"])
         arc = " " + case["arcword"]
         var = case["variant"]
-        tail = {"plain": "", "where": " where size > 9", "order": " order by size desc, path", "limit": " limit %d" % case["N"]}[var]
-        q1 = "select " + ", ".join(cols) + fromc + arc + tail.replace(" limit", " limit") + " into list"
-        q0 = "select " + ", ".join(cols) + fromc + (tail if var != "limit" else "") + " into list"
+        tail = {"plain": "", "where": " where size > 9", "order": " order by size desc, path", "limit": " limit %d" % case["N"],
+                "where_limit": " where size > 9 limit %d" % case["N"], "order_limit": " order by size desc, path limit %d" % case["N"]}[var]
+        q1 = "select " + ", ".join(cols) + fromc + arc + tail + " into list"
+        q0 = "select " + ", ".join(cols) + fromc + tail.split(" limit")[0] + " into list"
         viols = []
         plan = dict(case["plan"], budget=4000 + 400 * len(world["nodes"]) + 40 * sum(len(n["zip"]["members"]) for n in world["nodes"] if "zip" in n))
         with ctx.sandbox(world) as sb:
@@ -188,11 +189,24 @@ class Check:
             rows0 = r0.rows(len(cols))
             rows1 = r1.rows(len(cols))
             members = self.member_rows(world, top, nm)
-            if var == "where":
+            if var in ("where", "where_limit"):
                 members = [m for m in members if int(m[2]) > 9]
+            if var == "order_limit":
+                # relational: the first N keys of fselect's own unlimited ordered run with archives
+                qu = q1.split(" limit")[0] + " into list"
+                ru = sb.run([qu], plan=plan, tz=case["tz"])
+                if self.abnormal(ru) or ru.status != 0:
+                    viols.append(Violation(PROP, "C19.run", ["C19.run", "abnormal_end", var], {"query": qu, "outcome": ru.summary()}))
+                    return viols
+                full = ru.rows(len(cols))
+                want_n = min(case["N"], len(full))
+                if len(rows1) != want_n or [r[2] for r in rows1] != [r[2] for r in full[:want_n]]:
+                    viols.append(Violation(PROP, "C19.limit", ["C19.limit", "not_the_top_N", var],
+                                           {"query": q1, "rows": len(rows1), "want": want_n, "sizes": [b2s(r[2]) for r in rows1][:8], "want_sizes": [b2s(r[2]) for r in full[:want_n]][:8]}))
+                return viols
             ordinary1 = [r for r in rows1 if not r[0].startswith(b"[")]
             member1 = [r for r in rows1 if r[0].startswith(b"[")]
-            if var == "limit":
+            if var in ("limit", "where_limit"):
                 M = len(rows0) + len(members)
                 want = min(case["N"], M)
                 if len(rows1) != want:
